@@ -190,9 +190,12 @@ PROPS = {
             'is_ambiguous(s) is exactly: empty, ~, null/true/false in any case, `<<`, a document marker (`---` / `...` alone or followed by a blank), [+-]?.inf/.nan in any case, or numeric-looking; nothing ambiguous is ever plain-safe',
             'write_plain_or_quoted / write_plain_or_quoted_value (the decision points): the raw text is written only when it is not ambiguous and reads back as itself in that context; otherwise exactly the double-quoted escape or (quote_all) the single-quoted form',
             'serialize_str, block-scalar half (two consecutive fragments + seam check): a block scalar is chosen only for text without carriage return / NUL (is_block_scalar_safe refuses every Cc character but LF and TAB); the header is the style character, the indentation indicator as OFFSET FROM THE PARENT NODE (when the first non-empty line starts with a space; quoted fallback when the offset is > 9 or not known), and the chomping indicator for the number of trailing line feeds; the literal body is exactly lit_lines(v) behind the body indentation, and lit_value(lit_lines(v), chomp) == v is a proved lemma over a reader-side definition written from YAML 1.2 section 8.1',
+            'KeyScalarSink::serialize_str (scalar mapping keys have their own quoting): raw only if the key is not ambiguous and reads back as itself in block AND flow mappings, else `"` + escapes (\\\\ \\" \\n \\r \\t, \\uXXXX for every other Cc character) + `"`; lemma: no quote, backslash or control character is ever written raw',
+            'float text (both copies of the normalisation in src/zmij_format.rs, lifted as fragments): the text written is the formatter output with only `.0` appended to a mantissa without a point and `+` inserted after an exponent marker without a sign (float_norm), and float_norm always has a point before the exponent marker and a sign after it (lemma_float_norm_grammar)',
+            'write_indent / serialize_tuple_variant prologue / empty-collection fragments: see DESIGN.md section 0 "Emitter positions"',
             'write_folded_block: a long line is broken only at a run of spaces after a non-empty piece, exactly one space of the run is swallowed by the break, the next piece and the line itself start with neither space nor tab, and the pieces joined by single spaces are the original line',
         ],
-        not_covered=['the numeric-looking regex (uninterpreted) and parse_yaml11_bool (std string comparisons; uninterpreted), the body of a FOLDED block scalar as a whole (only its per-line folding is specified), the key serializer of KeyScalarSink (src/ser.rs:2828), float text (zmij), the reader side of the round trip',
+        not_covered=['the numeric-looking regex (uninterpreted) and parse_yaml11_bool (std string comparisons; uninterpreted), the body of a FOLDED block scalar as a whole (only its per-line folding is specified), the digits produced by the external crate zmij (assumed ASCII shortest round-trip text; `.nan` / `.inf` branches not under contract), the reader side of the round trip',
                      'both C12 observations an independent reviewer made while seeding are now contract-detected and fixed: trailing blank (F12) and block-scalar indentation indicators in nested positions (F15)'],
         assumptions=['fmt::Write is an append-only sink (contracts/quoting.shim.rs); write! with {:02X}/{:04X} prints upper-case hex; char::is_control is category Cc',
                      'std str operations of the predicates behave as their shims say (contracts/plain.shim.rs); that plain_reads_back is SUFFICIENT for a YAML reader is not proved (no reader semantics) - it is the list of necessary conditions of the YAML spec',
